@@ -182,13 +182,14 @@ PROPS = {
         "technique": "Verus default safety obligations + rejects/value postconditions on extracted real functions, no preconditions on public API",
     },
     "C11": {
-        "units": ["glue"],
+        "units": ["glue", "shape"],
         "rlimit": 30,
         "level": "proof",
         "assumptions": STD_ASSUME + [
             "float callees are contract boundaries with ASSUMED contracts: get_quintant_vertices returns 3 vertices, get_face_vertices / "
-            "get_pentagon_vertices 5, split_edges(n) multiplies the vertex count by max(n,1), get_vertices_vec / normalize_longitudes / "
-            "Vec::reverse preserve length, projection inverse is total",
+            "get_pentagon_vertices 5, normalize_longitudes / Vec::reverse preserve length, projection inverse is total. The counting "
+            "contracts of PentagonShape::split_edges (count * max(n,1)), from_vertices and get_vertices_vec that unit glue uses are "
+            "DISCHARGED on the real methods in unit shape (interpolation arithmetic, clone and the winding test as stubs)",
             "item-local rewrites of cell_to_boundary listed in evidence (unwrap_or_default, unwrap_or_else closure, .max(), iterator "
             "for-loops -> index loops, thread-local projector -> stub)",
             "ONLY the ring-length / closure sentence is decided; finite coordinates, latitude range, orientation, centre containment, "
@@ -397,6 +398,7 @@ TRUSTED = {
              "assume_specification u64::pow", "assume_specification u64::saturating_pow"],
     "glue": None,
     "memo": None,
+    "shape": None,
     "compact": ["external_body err_msg", "external_body get_origins", "assume_specification usize::pow",
                 "assume_specification u64::pow", "assume_specification u64::saturating_pow",
                 "external_body U64Set", "external_body std_collect_set", "external_body std_set_into_vec",
